@@ -726,8 +726,13 @@ func dynDescr(w world) string {
 	return fmt.Sprintf(" dynamic{%s nil=%v continue=%v}", w.dyn.descr, w.dynNilFilter, w.dynContinue)
 }
 
-func TestShardLimit(t *testing.T) {
-	rapid.Check(t, func(t *rapid.T) {
+func TestShardLimit(t *testing.T) { rapid.Check(t, propShardLimit) }
+
+// FuzzShardLimit: the same property driven by the coverage-guided engine (thorough tier).
+func FuzzShardLimit(f *testing.F) { f.Fuzz(rapid.MakeFuzz(propShardLimit)) }
+
+func propShardLimit(t *rapid.T) {
+	{
 		w := gen(t)
 		nt, labels, sig, err := check(w)
 		var ops []string
@@ -743,7 +748,7 @@ func TestShardLimit(t *testing.T) {
 		if nt {
 			rec.Sample(strings.Join(labels, "+"), cs)
 		}
-	})
+	}
 }
 
 func TestReplay(t *testing.T) {
